@@ -739,7 +739,13 @@ impl World {
         tr(format!("op {line}"));
         match t[0] {
             // markers for the model driver only
-            "mode" | "expect-drained" | "expect-alive" | "note" => {}
+            "mode" | "expect-drained" | "expect-alive" | "note" | "fine" => {}
+            "yield" => {
+                for _ in 0..t[1].parse::<u32>().unwrap() {
+                    tokio::task::yield_now().await;
+                }
+                self.collect();
+            }
             "cfg" => {
                 let kv = parse_kv(&t[2..]);
                 apply_cfg(&mut self.cfgs[side_idx(t[1])], &kv);
@@ -1178,7 +1184,14 @@ impl World {
 /// Run one script (lines) on a fresh paused single-threaded runtime; returns the trace.
 pub fn run_script(lines: &[String]) -> Vec<String> {
     let _ = crate::trace::take();
-    let rt = tokio::runtime::Builder::new_current_thread().enable_time().start_paused(true).build().unwrap();
+    // `fine`: the scheduler returns to the script after every task poll, so that `yield n` places the next
+    // operation between any two polls of the endpoints' tasks (otherwise a yield runs them until idle)
+    let mut b = tokio::runtime::Builder::new_current_thread();
+    b.enable_time().start_paused(true);
+    if lines.iter().any(|l| l.trim() == "fine") {
+        b.event_interval(1);
+    }
+    let rt = b.build().unwrap();
     let lines = lines.to_vec();
     let res = std::panic::catch_unwind(std::panic::AssertUnwindSafe(|| {
         rt.block_on(async move {
